@@ -327,6 +327,18 @@ def gen_ranges(rng, max_product=40, label=True, runnable=False):
     return dict(items)
 
 
+def gen_splitting_ranges(rng):
+    """A ranges dictionary with the splitting method and at least two values on the decoder and
+    error-rate axes (so that dropping or multiplying an axis is visible)."""
+    for _ in range(200):
+        r = gen_ranges(rng, max_product=16, runnable=True)
+        d = r['decoder'].get('parameters')
+        if isinstance(d, list) and len(d) >= 2 and len(r['error_rate']) >= 2:
+            r['method'] = {'name': 'splitting', 'parameters': {'n_init_runs': int(rng.integers(1, 20))}}
+            return r
+    raise RuntimeError('generator could not produce a splitting specification')
+
+
 def gen_run(rng):
     r = gen_ranges(rng, max_product=1, label=False)
 
@@ -427,6 +439,9 @@ def correspondence(ctx):
         ans = batch_answer(spec, out_file)
         s.add(f'sims {enc(spec)}', ans, {'spec': spec}, tag=form,
               nontrivial=not ans.startswith('ERR'))
+    for _ in range(8 if ctx.thorough else 3):
+        spec = {'ranges': gen_splitting_ranges(rng)}
+        s.add(f'sims {enc(spec)}', batch_answer(spec, out_file), {'spec': spec}, tag='splitting')
     streams.append(s.run())
 
     # --- 2. expand_input_ranges / get_runs
@@ -714,6 +729,8 @@ def oracle_cases(ctx, deep):
         spec = {'ranges': gen_ranges(rng, max_product=8, runnable=True)}
         cases.append({'kind': 'reinstantiate', 'spec': spec})
         cases.append({'kind': 'resume', 'spec': {'ranges': gen_ranges(rng, max_product=12, runnable=True)}})
+    for _ in range(6 if deep else 2):
+        cases.append({'kind': 'expansion', 'spec': {'ranges': gen_splitting_ranges(rng)}})
     for _ in range(10 if deep else 4):
         cases.append({'kind': 'runs', 'spec': {'runs': [gen_run(rng) for _ in range(int(rng.integers(1, 6)))]}})
     # one axis with five values
